@@ -314,7 +314,29 @@ func c17Run(c c17Case) (string, error) {
 	return fmt.Sprintf("(mkCase %s %s)", gList(table), gList(hist)), nil
 }
 
+// c17Twins are pairs of texts whose token arrays differ in one field of one token only (modifier, type or
+// length): typing that turns one into the other between a full answer and a delta quoting it.
+var c17Twins = [][2]string{
+	{"account assets:bank\n2024-01-01 x\n    a:b  1\n", "capture assets:bank\n2024-01-01 x\n    a:b  1\n"},
+	{"comment\nassets:bank\n", "account\nassets:bank\n"},
+	{"account assets:bank\n    ; type:A\n", "comment assets:bank\n    ; type:A\n"},
+	{"2024-01-01 x\n    a:b  1 USD\n", "2024-01-01 x\n    a:b  2 USD\n"},
+	{"2024-01-01 x\n    a:b  1 USD\n", "2024-01-01 x\n    a:c  1 USD\n"},
+	{"2024-01-01 x  ; t:v\n", "2024-01-01 x  ; t v\n"},
+}
+
 func c17Gen(r *rng, st *stats) (c17Case, bool) {
+	if r.chance(6) {
+		// full -> one-field edit -> delta quoting the current id (then a full answer to compare with)
+		tw := pick(r, c17Twins)
+		a, b := tw[0], tw[1]
+		if r.chance(50) {
+			a, b = b, a
+		}
+		st.count("history:one-field-edit")
+		return c17Case{Contents: []string{"", a, b}, Reqs: []c17Req{{Op: "open", URI: 0, C: 1}, {Op: "full", URI: 0},
+			{Op: "edit", URI: 0, C: 2}, {Op: "delta", URI: 0, Prev: "cur"}, {Op: "full", URI: 0}}}, true
+	}
 	c := c17Case{Contents: c17Contents(r, st)}
 	n := r.rangeInt(3, 12)
 	open := map[int]bool{}
